@@ -1140,6 +1140,13 @@ func (s *Service) processBackupShardRequest(conn net.Conn) {
 		return nil
 	}(); err != nil {
 		s.Logger.Error("Error processing BackupShard request", zap.Error(err))
+		// The reply is a bare tar stream. Just closing the connection reads as a clean
+		// end of archive on the requesting node, which would restore an empty or partial
+		// backup as if it were complete. End the stream with two blocks that no tar
+		// reader accepts as padding, header or end-of-archive marker instead.
+		block := bytes.Repeat([]byte{'!'}, 1024)
+		copy(block, "backup failed: "+err.Error()+"\n")
+		conn.Write(block)
 		return
 	}
 }
